@@ -173,7 +173,7 @@ fn run_loose(desc: &Value, ctx: &Ctx) -> CaseOut {
                 for (k, v) in &got {
                     if let Some(rest) = k.strip_prefix("content/") {
                         let p: usize = rest.split('/').next().unwrap().parse().unwrap_or(0);
-                        if p == last && !k.ends_with("/bytes") && !v.starts_with("ok:missing:") {
+                        if p == last && !k.ends_with("/bytes") && !k.ends_with("/streamed") && !v.starts_with("ok:missing:") {
                             diffs.push(format!("{k}: {v} (expected ok:missing:…)"));
                         }
                     }
@@ -363,7 +363,7 @@ pub fn run(desc: &Value, ctx: &Ctx) -> CaseOut {
                     }
                 }
                 exp.retain(|k, _| {
-                    if k.ends_with("/bytes") {
+                    if k.ends_with("/bytes") || k.ends_with("/streamed") {
                         let pack: u16 = k.split('/').nth(1).unwrap().parse().unwrap();
                         return !unavailable.contains(&pack);
                     }
